@@ -405,7 +405,7 @@ func main() {
 	// ---------------- emit ----------------
 	var b strings.Builder
 	b.WriteString("(* GENERATED by /verif/translator from /repo/sourcecode-parser/graph/{construct,query}.go — do not edit *)\n")
-	b.WriteString("From CPF Require Import Base.Bytes.\nOpen Scope bs_scope.\n\n")
+	b.WriteString("From CPF Require Import Base.Bytes Base.Skel.\nOpen Scope bs_scope.\n\n")
 	b.WriteString("(* every `Type:` literal of a Node literal in buildGraphFromAST, in source order *)\n")
 	b.WriteString("Definition scanner_kinds : list bytes :=\n  " + coqList(kinds) + ".\n\n")
 	b.WriteString("(* switch operatorType: (operators, identity prefix, kind) *)\n")
@@ -466,7 +466,8 @@ func main() {
 		}
 		b.WriteString("(" + coqStr(m.name) + ", " + coqStr(m.path) + ")")
 	}
-	b.WriteString("].\n")
+	b.WriteString("].\n\n")
+	b.WriteString(poolSkeleton(fset, cf, csrc))
 	if err := os.WriteFile(os.Args[2]+".tmp", []byte(b.String()), 0o644); err != nil {
 		die("%v", err)
 	}
